@@ -32,13 +32,20 @@ theorem enter_spec {s s1 : Srv} {k c name : Str} (he : s.enter k c = some (s1, n
         cases he
         exact ⟨_, rfl, rfl, Or.inr ⟨sc, hch, by simpa using hnot, rfl⟩⟩
 
-/-- the burst after the bot's own JOIN brings its (fresh) record of the channel in line with the server's -/
+theorem shown_mem {s : Srv} {ps : List (Str × Flags)} {x : Str} {f : Flags} (h : (x, f) ∈ ps) :
+    (x, shown s.cfg f) ∈ shownMembers s ps := by
+  simp only [shownMembers, List.mem_map, Prod.mk.injEq]
+  exact ⟨(x, f), h, rfl, rfl⟩
+
+/-- what the bot gets unasked after its own JOIN (topic, NAMES) brings its fresh record of the channel in
+line with the server's, as far as those replies go: modes and bans still have to be asked for -/
 theorem burst_effect {s : Srv} {b : Bot} (h : AtSrv s b) {k : Str} {sc : SChan} (hsc : aget s.chans k = some sc)
     (hbot : sc.has s.botKey = true)
     (hch : aget b.channels k = some { Chan.empty with users := [s.botKey] }) :
     Frame s k b (b.recvAll (s.joinBurst sc)) ∧
-    (∃ ch', aget (b.recvAll (s.joinBurst sc)).channels k = some ch' ∧ ChanMatches sc ch') ∧
-    (∀ p ∈ sc.members, ∃ u, aget s.users p.1 = some u ∧ aget (b.recvAll (s.joinBurst sc)).n2h p.1 = some u.mask) := by
+    (∃ ch', aget (b.recvAll (s.joinBurst sc)).channels k = some ch' ∧ ChanMatches s.cfg.multiPrefix false false sc ch') ∧
+    (s.cfg.uhnames = true → ∀ p ∈ sc.members, ∃ u, aget s.users p.1 = some u ∧
+      aget (b.recvAll (s.joinBurst sc)).n2h p.1 = some u.mask) := by
   have hcw := h.wf.chans k sc hsc
   have hkey := hcw.key
   subst hkey
@@ -62,104 +69,47 @@ theorem burst_effect {s : Srv} {b : Bot} (h : AtSrv s b) {k : Str} {sc : SChan} 
   rw [hb1]
   have h1 := h.frame hf1
   -- NAMES
-  obtain ⟨hf2, ch2, hch2, hr2⟩ := names_reply h1 hsc hch1
-  have h2 := h1.frame hf2
-  -- WHO
-  obtain ⟨hf3, hcs3, hn3⟩ := who_reply (b := b1.recvAll (s.namesReply sc)) h2 hsc
-  have h3 := h2.frame hf3
-  have hch3 : aget ((b1.recvAll (s.namesReply sc)).recvAll (s.whoReply sc)).channels (lower sc.name) = some ch2 := by
-    rw [hcs3]; exact hch2
-  -- name the state reached so far
-  obtain ⟨b3, hb3⟩ : ∃ b3, b3 = (b1.recvAll (s.namesReply sc)).recvAll (s.whoReply sc) := ⟨_, rfl⟩
-  rw [← hb3] at h3 hch3 hn3 hf3 ⊢
-  -- 324, 329
-  simp only [recvAll_cons, recvAll_nil]
-  rw [mode_line h3 hsc hch3]
-  obtain ⟨b4, hb4⟩ : ∃ b4, b4 = ({ b3 with channels := (aset b3.channels (lower sc.name)
-      { ch2 with modes := sc.modes.foldl (fun acc e => aset acc e.1 e.2) ch2.modes }) } : Bot) := ⟨_, rfl⟩
-  rw [← hb4]
-  have h4 : AtSrv s b4 := by rw [hb4]; exact ⟨h3.wf, h3.nick⟩
-  have hch4 : aget b4.channels (lower sc.name) = some { ch2 with modes := sc.modes.foldl (fun acc e => aset acc e.1 e.2) ch2.modes } := by
-    rw [hb4]; exact aget_aset_self _ _ _
-  obtain ⟨ch4, hb5, hv4⟩ := created_line h4 sc hch4
-  rw [hb5]
-  obtain ⟨b5, hb5'⟩ : ∃ b5, b5 = ({ b4 with channels := aset b4.channels (lower sc.name) ch4 } : Bot) := ⟨_, rfl⟩
-  rw [← hb5']
-  have h5 : AtSrv s b5 := by rw [hb5']; exact ⟨h4.wf, h4.nick⟩
-  have hch5 : aget b5.channels (lower sc.name) = some ch4 := by rw [hb5']; exact aget_aset_self _ _ _
-  -- bans
-  unfold Srv.banList
-  simp only [recvAll_append]
-  rw [ban_lines sc sc.bans h5 hch5]
-  obtain ⟨b6, hb6⟩ : ∃ b6, b6 = ({ b5 with channels := (aset b5.channels (lower sc.name)
-      { ch4 with bans := sc.bans.foldl (fun acc m => sadd acc (lower m)) ch4.bans }) } : Bot) := ⟨_, rfl⟩
-  rw [← hb6]
-  have h6 : AtSrv s b6 := by rw [hb6]; exact ⟨h5.wf, h5.nick⟩
-  simp only [recvAll_cons, recvAll_nil, recv_emit]
-  rw [noop_line h6 "368".toList [sc.name, "End of channel ban list".toList] cmdOf_368]
-  subst hb6
-  have hf4 : Frame s (lower sc.name) b3 b4 := by rw [hb4]; exact frame_setChan _ _ _ _
-  have hf5 : Frame s (lower sc.name) b4 b5 := by rw [hb5']; exact frame_setChan _ _ _ _
-  have hn5 : b5.n2h = b3.n2h := by rw [hb5', hb4]
-  -- conclusions
-  refine ⟨?_, ⟨_, aget_aset_self _ _ _, ?_⟩, ?_⟩
-  · exact (hf1.trans (hf2.trans hf3)).trans (hf4.trans (hf5.trans (frame_setChan _ _ _ _)))
-  · refine ⟨?_, ?_, ?_, ?_, ?_, ?_, ?_⟩
-    · intro x
-      show x ∈ ch4.users ↔ _
-      rw [hv4.users]
-      show x ∈ ch2.users ↔ _
-      rw [hr2.users, hv1.1]
-      simp only [List.mem_singleton]
-      constructor
-      · rintro (rfl | h)
-        · exact has_iff.mp hbot
-        · exact h
-      · intro h; exact Or.inr h
-    · intro x
-      show x ∈ ch4.ops ↔ _
-      rw [hv4.ops]
-      show x ∈ ch2.ops ↔ _
-      rw [hr2.ops, hv1.2.1]; simp
-    · intro x
-      show x ∈ ch4.halfops ↔ _
-      rw [hv4.halfops]
-      show x ∈ ch2.halfops ↔ _
-      rw [hr2.halfops, hv1.2.2.1]; simp
-    · intro x
-      show x ∈ ch4.voices ↔ _
-      rw [hv4.voices]
-      show x ∈ ch2.voices ↔ _
-      rw [hr2.voices, hv1.2.2.2.1]; simp
-    · show ch4.topic = _
-      rw [hv4.topic]
-      show ch2.topic = _
-      rw [hr2.topic, ht1]
-    · intro m
-      show aget ch4.modes m = _
-      rw [hv4.modes]
-      show aget (sc.modes.foldl (fun acc e => aset acc e.1 e.2) ch2.modes) m = _
-      rw [foldl_aset_get _ _ hcw.modesNodup]
-      cases hg : aget sc.modes m with
-      | some v => rfl
-      | none =>
-        simp only
-        rcases hr2.modes m with e | ⟨hty, rfl, _⟩
-        · rw [e, hv1.2.2.2.2.1]; rfl
-        · exfalso
-          by_cases hs : (aget sc.modes 's').isSome = true
-          · rw [hg] at hs; cases hs
-          · simp only [hs, Bool.false_eq_true, ↓reduceIte] at hty
-            split at hty <;> simp at hty
-    · intro x
-      show x ∈ sc.bans.foldl (fun acc m => sadd acc (lower m)) ch4.bans ↔ _
-      rw [foldl_sadd_mem, hv4.bans]
-      show x ∈ ch2.bans ∨ _ ↔ _
-      rw [hr2.bans, hv1.2.2.2.2.2]; simp
-  · intro p hp
-    obtain ⟨u, hu, hn⟩ := hn3 p hp
-    refine ⟨u, hu, ?_⟩
-    show aget b5.n2h p.1 = _
-    rw [hn5]; exact hn
+  obtain ⟨hf2, ⟨ch2, hch2, hr2⟩, hn2⟩ := names_reply h1 hsc hch1
+  refine ⟨hf1.trans hf2, ⟨ch2, hch2, ?_⟩, hn2⟩
+  refine ⟨⟨?_, ?_⟩, ⟨?_, ?_⟩, ⟨?_, ?_⟩, ⟨?_, ?_⟩, ?_, ?_, ?_, ?_, ?_⟩
+  · intro x hx
+    rcases (hr2.users x).mp hx with hx | ⟨f', hf'⟩
+    · rw [hv1.1] at hx
+      simp only [List.mem_singleton] at hx
+      subst hx
+      obtain ⟨f, hf⟩ := has_iff.mp hbot
+      exact ⟨f, hf, trivial⟩
+    · obtain ⟨f, hf, _⟩ := mem_shown hf'; exact ⟨f, hf, trivial⟩
+  · intro _ x ⟨f, hf, _⟩; exact (hr2.users x).mpr (Or.inr ⟨_, shown_mem hf⟩)
+  · intro x hx
+    rcases (hr2.ops x).mp hx with hx | ⟨f', hf', ho⟩
+    · rw [hv1.2.1] at hx; cases hx
+    · obtain ⟨f, hf, rfl⟩ := mem_shown hf'; exact ⟨f, hf, show f.o = true from (shown_o s.cfg f).symm.trans ho⟩
+  · intro _ x ⟨f, hf, ho⟩
+    exact (hr2.ops x).mpr (Or.inr ⟨_, shown_mem hf, (shown_o s.cfg f).trans ho⟩)
+  · intro x hx
+    rcases (hr2.halfops x).mp hx with hx | ⟨f', hf', ho⟩
+    · rw [hv1.2.2.1] at hx; cases hx
+    · obtain ⟨f, hf, rfl⟩ := mem_shown hf'; exact ⟨f, hf, shown_h s.cfg f ho⟩
+  · intro hmp x ⟨f, hf, ho⟩
+    exact (hr2.halfops x).mpr (Or.inr ⟨_, shown_mem hf, by rw [shown_mp hmp]; exact ho⟩)
+  · intro x hx
+    rcases (hr2.voices x).mp hx with hx | ⟨f', hf', ho⟩
+    · rw [hv1.2.2.2.1] at hx; cases hx
+    · obtain ⟨f, hf, rfl⟩ := mem_shown hf'; exact ⟨f, hf, shown_v s.cfg f ho⟩
+  · intro hmp x ⟨f, hf, ho⟩
+    exact (hr2.voices x).mpr (Or.inr ⟨_, shown_mem hf, by rw [shown_mp hmp]; exact ho⟩)
+  · rw [hr2.topic, ht1]
+  · intro m
+    rcases hr2.modes m with e | ⟨hty, rfl, e⟩
+    · right; rw [e, hv1.2.2.2.2.1]; rfl
+    · left; rw [e]
+      by_cases hs : (aget sc.modes 's').isSome = true
+      · exact (secret_is_flag hcw.modes hs).symm
+      · simp only [hs, Bool.false_eq_true, ↓reduceIte] at hty
+        split at hty <;> simp at hty
+  · intro hf; cases hf
+  · intro x hx; rw [hr2.bans, hv1.2.2.2.2.2] at hx; cases hx
+  · intro hf; cases hf
 
 end C10
